@@ -952,3 +952,97 @@ Proof. vm_compute. repeat split; reflexivity. Qed.
 Lemma ex_scaled : scaled_dim 227 3 8 = Val 86 /\ scaled_dim 149 15 8 = Val 280 /\ scaled_dim 65535 2 1 = Val 131070 /\
   dtp_dctsize 3 8 = 3 /\ dtp_dctsize 2 1 = 16.
 Proof. vm_compute. repeat split; reflexivity. Qed.
+
+(* ------------------------------------------------------------------ getSubsamp: only the ratios matter *)
+Definition factors : list Z := [1; 2; 3; 4].
+Lemma factors_in x : 1 <= x <= 4 -> In x factors.
+Proof. intros. unfold factors. assert (x = 1 \/ x = 2 \/ x = 3 \/ x = 4) as [->|[->|[->| ->]]] by lia; cbn; tauto. Qed.
+
+Definition ratio_ok (yh yv bh bv rh rv : Z) : bool :=
+  let s := getSubsamp3 yh yv bh bv rh rv in
+  (s =? TJSAMP_UNKNOWN) ||
+  ((0 <=? s) && (s <? TJ_NUMSAMP) && negb (s =? TJSAMP_GRAY) && (bh =? rh) && (bv =? rv) &&
+   (yh =? bh * hsf s) && (yv =? bv * vsf s)).
+
+Definition ratio_sweep : bool :=
+  forallb (fun yh => forallb (fun yv => forallb (fun bh => forallb (fun bv => forallb (fun rh => forallb (fun rv =>
+    ratio_ok yh yv bh bv rh rv) factors) factors) factors) factors) factors) factors.
+
+Lemma ratio_sweep_true : ratio_sweep = true.
+Proof. vm_compute. reflexivity. Qed.
+
+Lemma getSubsamp_ratio yh yv bh bv rh rv :
+  1 <= yh <= 4 -> 1 <= yv <= 4 -> 1 <= bh <= 4 -> 1 <= bv <= 4 -> 1 <= rh <= 4 -> 1 <= rv <= 4 ->
+  ratio_ok yh yv bh bv rh rv = true.
+Proof.
+  intros H1 H2 H3 H4 H5 H6. pose proof ratio_sweep_true as R. unfold ratio_sweep in R.
+  rewrite forallb_forall in R. specialize (R yh (factors_in _ H1)).
+  rewrite forallb_forall in R. specialize (R yv (factors_in _ H2)).
+  rewrite forallb_forall in R. specialize (R bh (factors_in _ H3)).
+  rewrite forallb_forall in R. specialize (R bv (factors_in _ H4)).
+  rewrite forallb_forall in R. specialize (R rh (factors_in _ H5)).
+  rewrite forallb_forall in R. exact (R rv (factors_in _ H6)).
+Qed.
+
+Lemma cdiv_scale w c r : 1 <= c -> 1 <= r -> (w * c + c * r - 1) / (c * r) = cdiv w r.
+Proof.
+  intros Hc Hr.
+  pose proof (cdiv_spec w r ltac:(lia)) as [S1 S2].
+  set (q := cdiv w r) in *.
+  assert (A1 : ((q - 1) * r + 1) * c <= w * c) by (apply Z.mul_le_mono_nonneg_r; lia).
+  assert (A2 : w * c <= q * r * c) by (apply Z.mul_le_mono_nonneg_r; lia).
+  assert (P : 0 < c * r) by (apply Z.mul_pos_pos; lia).
+  symmetry. apply Z.div_unique with (r := w * c + c * r - 1 - c * r * q).
+  - left. split.
+    + replace (((q - 1) * r + 1) * c) with (c * r * q - c * r + c) in A1 by ring. lia.
+    + replace (q * r * c) with (c * r * q) in A2 by ring. lia.
+  - ring.
+Qed.
+
+(* Whenever the sampling factors (each in 1..4, JPEG's range) of a YCbCr JPEG denote level s for the TurboJPEG API, in the
+   standard or in a non-standard way, the component sizes libjpeg derives from them are the published plane sizes of
+   level s: chroma exactly, luma up to the padding (plane >= component, less than one sampling period more). *)
+Definition subsamp_ratio_statement : Prop :=
+  forall yh yv bh bv rh rv s w h,
+  1 <= yh <= 4 -> 1 <= yv <= 4 -> 1 <= bh <= 4 -> 1 <= bv <= 4 -> 1 <= rh <= 4 -> 1 <= rv <= 4 ->
+  getSubsamp3 yh yv bh bv rh rv = s -> s <> TJSAMP_UNKNOWN -> valid_dim w -> valid_dim h ->
+  valid_samp s /\ s <> TJSAMP_GRAY /\ bh = rh /\ bv = rv /\ yh = bh * hsf s /\ yv = bv * vsf s /\
+  downsampled_dim w bh yh = spec_pw 1 w s /\ downsampled_dim w rh yh = spec_pw 2 w s /\
+  downsampled_dim h bv yv = spec_ph 1 h s /\ downsampled_dim h rv yv = spec_ph 2 h s /\
+  downsampled_dim w yh yh = w /\ w <= spec_pw 0 w s < w + hsf s /\
+  downsampled_dim h yv yv = h /\ h <= spec_ph 0 h s < h + vsf s.
+
+Lemma subsamp_ratio_proof : subsamp_ratio_statement.
+Proof.
+  intros yh yv bh bv rh rv s w h H1 H2 H3 H4 H5 H6 E NU Hw Hh.
+  pose proof (getSubsamp_ratio yh yv bh bv rh rv H1 H2 H3 H4 H5 H6) as R. unfold ratio_ok in R. rewrite E in R.
+  assert (Hs : valid_samp s) by (unfold valid_samp; lia).
+  assert (Hg : s <> TJSAMP_GRAY) by lia.
+  assert (Ebh : bh = rh) by lia. assert (Ebv : bv = rv) by lia.
+  assert (Eyh : yh = bh * hsf s) by lia. assert (Eyv : yv = bv * vsf s) by lia.
+  destruct (hsf_pow2 s Hs) as (j & Hj & _ & _ & Hhs). destruct (vsf_pow2 s Hs) as (i & Hi & _ & _ & Hvs).
+  pose proof (pow2_small j Hj). pose proof (pow2_small i Hi).
+  assert (C1 : downsampled_dim w bh yh = cdiv w (hsf s)).
+  { unfold downsampled_dim. rewrite Eyh. apply cdiv_scale; lia. }
+  assert (C2 : downsampled_dim h bv yv = cdiv h (vsf s)).
+  { unfold downsampled_dim. rewrite Eyv. apply cdiv_scale; lia. }
+  assert (L1 : forall d y, 1 <= y -> downsampled_dim d y y = d).
+  { intros d y Hy. unfold downsampled_dim. replace (d * y + y - 1) with (d * y + (y - 1)) by lia.
+    rewrite Z.div_add_l by lia. rewrite Z.div_small by lia. lia. }
+  pose proof (pad_up_bounds w (hsf s) ltac:(lia)). pose proof (pad_up_bounds h (vsf s) ltac:(lia)).
+  repeat split; try assumption; try lia.
+  - rewrite <- Ebh. exact C1.
+  - rewrite <- Ebv. exact C2.
+  - apply L1; lia.
+  - unfold spec_pw. cbn [Z.eqb]. lia.
+  - unfold spec_pw. cbn [Z.eqb]. lia.
+  - apply L1; lia.
+  - unfold spec_ph. cbn [Z.eqb]. lia.
+  - unfold spec_ph. cbn [Z.eqb]. lia.
+Qed.
+
+Lemma ex_getSubsamp :
+  getSubsamp3 2 1 1 1 1 1 = TJSAMP_422 /\ getSubsamp3 2 2 1 2 1 2 = TJSAMP_422 /\ getSubsamp3 2 2 2 1 2 1 = TJSAMP_440 /\
+  getSubsamp3 3 1 3 1 3 1 = TJSAMP_444 /\ getSubsamp3 4 1 1 1 1 1 = TJSAMP_411 /\ getSubsamp3 1 4 1 1 1 1 = TJSAMP_441 /\
+  getSubsamp3 4 2 1 2 1 2 = TJSAMP_UNKNOWN /\ getSubsamp3 2 2 2 2 2 2 = TJSAMP_UNKNOWN /\ getSubsamp3 2 1 1 1 2 1 = TJSAMP_UNKNOWN.
+Proof. vm_compute. repeat split; reflexivity. Qed.
